@@ -15,15 +15,19 @@
        AppendGuard  append_header special-cases Set-Cookie            (correct: TRUE)
        FreshCookie  set_cookie starts from an empty attribute set and unset_cookie clears Max-Age
                     (correct: TRUE; FALSE is what plainly re-using an http.cookies Morsel does)
-       UseSecureDefault  secure=None takes the app option             (correct: TRUE) *)
+       UseSecureDefault  secure=None takes the app option             (correct: TRUE)
+       SnapshotDefault   the option is read once, when the response is created, instead of at the
+                         set_cookie call                                 (correct: FALSE)
+   sd is the value set_cookie uses for secure=None (design); opt is the option as the application last set it
+   (ghost).  The application may change the option between any two response operations. *)
 EXTENDS RespHeadersOps
 
-CONSTANTS NoLower, AppendGuard, FreshCookie, UseSecureDefault
+CONSTANTS NoLower, AppendGuard, FreshCookie, UseSecureDefault, SnapshotDefault
 
-VARIABLES hdr, raw, jar, sd, model, nraw, written, last
+VARIABLES hdr, raw, jar, sd, opt, model, nraw, written, last
 stores == <<hdr, raw, jar>>
 ghosts == <<model, nraw, written>>
-vars   == <<hdr, raw, jar, sd, model, nraw, written, last>>
+vars   == <<hdr, raw, jar, sd, opt, model, nraw, written, last>>
 
 Key(op, n) == IF op \in NoLower THEN n ELSE Lower(n)
 SCKey      == [b |-> SCName, c |-> 0]
@@ -31,7 +35,7 @@ Last(op, sc, err, res) == [op |-> op, sc |-> sc, err |-> err, res |-> res, ck |-
 LastC(op, ck, sec)     == [op |-> op, sc |-> FALSE, err |-> FALSE, res |-> <<>>, ck |-> ck, sec |-> sec]
 
 Init == /\ hdr = EmptyMap /\ raw = <<>> /\ jar = EmptyMap
-        /\ sd \in BOOLEAN
+        /\ sd \in BOOLEAN /\ opt = sd
         /\ model = EmptyMap /\ nraw = 0 /\ written = EmptyMap
         /\ last = Last("init", FALSE, FALSE, <<>>)
 
@@ -39,21 +43,21 @@ Init == /\ hdr = EmptyMap /\ raw = <<>> /\ jar = EmptyMap
 GetHeader(n) ==
     LET k == Key("get", n) IN
     /\ last' = Last("get", IsSC(n), k = SCKey, IF k = SCKey THEN <<>> ELSE Look(hdr, k))
-    /\ UNCHANGED <<hdr, raw, jar, sd, model, nraw, written>>
+    /\ UNCHANGED <<hdr, raw, jar, sd, opt, model, nraw, written>>
 
 SetHeader(n, v) ==
     LET k == Key("set", n) IN
     /\ hdr' = IF k = SCKey THEN hdr ELSE Put(hdr, k, v)
     /\ model' = IF IsSC(n) THEN model ELSE Put(model, n.b, v)
     /\ last' = Last("set", IsSC(n), k = SCKey, <<>>)
-    /\ UNCHANGED <<raw, jar, sd, nraw, written>>
+    /\ UNCHANGED <<raw, jar, sd, opt, nraw, written>>
 
 DeleteHeader(n) ==
     LET k == Key("delete", n) IN
     /\ hdr' = IF k = SCKey THEN hdr ELSE Del(hdr, k)
     /\ model' = IF IsSC(n) THEN model ELSE Del(model, n.b)
     /\ last' = Last("delete", IsSC(n), k = SCKey, <<>>)
-    /\ UNCHANGED <<raw, jar, sd, nraw, written>>
+    /\ UNCHANGED <<raw, jar, sd, opt, nraw, written>>
 
 AppendHeader(n, v) ==
     LET k == Key("append", n) IN
@@ -63,7 +67,7 @@ AppendHeader(n, v) ==
     /\ model' = IF IsSC(n) THEN model ELSE AppendVal(model, n.b, v)
     /\ nraw' = IF IsSC(n) THEN nraw + 1 ELSE nraw
     /\ last' = Last("append", IsSC(n), FALSE, <<>>)
-    /\ UNCHANGED <<jar, sd, written>>
+    /\ UNCHANGED <<jar, sd, opt, written>>
 
 (* bulk set: items is a sequence of [n, v]; either no item names Set-Cookie or all do (what a
    failed bulk call leaves behind is not stated by the property) *)
@@ -78,7 +82,7 @@ SetHeaders(items) ==
     /\ hdr' = IF bad THEN hdr ELSE BulkHdr(hdr, items)
     /\ model' = IF sc THEN model ELSE PutAll(model, items)
     /\ last' = Last("set_headers", sc, bad, <<>>)
-    /\ UNCHANGED <<raw, jar, sd, nraw, written>>
+    /\ UNCHANGED <<raw, jar, sd, opt, nraw, written>>
 
 (* ---- typed properties: the header name is fixed (and normalised) when the class is built ---- *)
 TypedKey(p) == [b |-> TypedHeader[p], c |-> 0]
@@ -86,38 +90,45 @@ SetTyped(p, a) ==
     /\ hdr' = IF a.kind = "none" THEN Del(hdr, TypedKey(p)) ELSE Put(hdr, TypedKey(p), Fmt(p, a))
     /\ model' = IF a.kind = "none" THEN Del(model, TypedHeader[p]) ELSE Put(model, TypedHeader[p], Fmt(p, a))
     /\ last' = Last("typed", FALSE, FALSE, <<>>)
-    /\ UNCHANGED <<raw, jar, sd, nraw, written>>
+    /\ UNCHANGED <<raw, jar, sd, opt, nraw, written>>
 GetTyped(p) ==
     /\ last' = Last("typed_get", FALSE, FALSE, Look(hdr, TypedKey(p)))
-    /\ UNCHANGED <<hdr, raw, jar, sd, model, nraw, written>>
+    /\ UNCHANGED <<hdr, raw, jar, sd, opt, model, nraw, written>>
 
 AppendLink(text) ==
     /\ hdr' = AppendVal(hdr, [b |-> "link", c |-> 0], text)
     /\ model' = AppendVal(model, "link", text)
     /\ last' = Last("link", FALSE, FALSE, <<>>)
-    /\ UNCHANGED <<raw, jar, sd, nraw, written>>
+    /\ UNCHANGED <<raw, jar, sd, opt, nraw, written>>
+
+(* ---- the application changes resp_options.secure_cookies_by_default ---- *)
+SetSecureDefault(b) ==
+    /\ opt' = b
+    /\ sd' = IF SnapshotDefault THEN sd ELSE b
+    /\ last' = Last("set_option", FALSE, FALSE, <<>>)
+    /\ UNCHANGED <<hdr, raw, jar, model, nraw, written>>
 
 (* ---- cookies ---- *)
 SetCookie(k, a) ==
     LET new == CookieOf(a, IF UseSecureDefault THEN sd ELSE FALSE) IN
     /\ jar' = Put(jar, k, IF FreshCookie \/ k \notin DOMAIN jar THEN new ELSE MergeSet(jar[k], new))
-    /\ written' = Put(written, k, CookieOf(a, sd))
+    /\ written' = Put(written, k, CookieOf(a, opt))
     /\ last' = LastC("set_cookie", k, a.secure)
-    /\ UNCHANGED <<hdr, raw, sd, model, nraw>>
+    /\ UNCHANGED <<hdr, raw, sd, opt, model, nraw>>
 UnsetCookie(k, u) ==
     LET new == UnsetOf(u) IN
     /\ jar' = Put(jar, k, IF k \notin DOMAIN jar THEN new
                            ELSE IF FreshCookie THEN InheritUnset(jar[k], new) ELSE MergeUnset(jar[k], new))
     /\ written' = Put(written, k, new)
     /\ last' = LastC("unset_cookie", k, "")
-    /\ UNCHANGED <<hdr, raw, sd, model, nraw>>
+    /\ UNCHANGED <<hdr, raw, sd, opt, model, nraw>>
 
 (* ---- emission: what the server receives, as a function of the stores ---- *)
 (* plain part: one <<name, value>> per stored key, the name as stored *)
 PlainList == {<<k, hdr[k]>> : k \in DOMAIN hdr}
 CookieLines == Len(raw) + Cardinality(DOMAIN jar)
-EmitWsgi == last' = Last("emit_wsgi", FALSE, FALSE, <<>>) /\ UNCHANGED <<hdr, raw, jar, sd, model, nraw, written>>
-EmitAsgi == last' = Last("emit_asgi", FALSE, FALSE, <<>>) /\ UNCHANGED <<hdr, raw, jar, sd, model, nraw, written>>
+EmitWsgi == last' = Last("emit_wsgi", FALSE, FALSE, <<>>) /\ UNCHANGED <<hdr, raw, jar, sd, opt, model, nraw, written>>
+EmitAsgi == last' = Last("emit_asgi", FALSE, FALSE, <<>>) /\ UNCHANGED <<hdr, raw, jar, sd, opt, model, nraw, written>>
 
 (* ---- properties ---- *)
 (* reading back any header in any letter case returns what the case-insensitive map holds *)
@@ -140,6 +151,6 @@ CookieExactAttrs == \A k \in DOMAIN jar : /\ k \in DOMAIN written
                                           /\ IF written[k].unset THEN UnsetAsked(jar[k], written[k]) ELSE jar[k] = written[k]
 (* Secure defaults from the app option, and only defaults: an explicit choice wins *)
 SecureDefaultsFromOption ==
-    last.op = "set_cookie" => jar[last.ck].secure = (IF last.sec = "none" THEN sd ELSE last.sec = "true")
+    last.op = "set_cookie" => jar[last.ck].secure = (IF last.sec = "none" THEN opt ELSE last.sec = "true")
 UnsetExpires == \A k \in DOMAIN jar : UnsetIsExpired(jar[k])
 ===========================================================================
